@@ -663,7 +663,7 @@ theorem cycleM_live_normal {app : App} {s : State} {a : Arch} (hsmall : app.inst
   cases out with
   | err => exact ⟨s3, .done .err, rfl, trivial⟩
   | none =>
-    rcases hpost with ⟨hb3, hn3, hst⟩ | ⟨a', c, hstep, hb3, hn3, hproc3, hpend3⟩
+    rcases hpost with ⟨hb3, hn3, hst, _⟩ | ⟨a', c, hstep, hb3, hn3, hproc3, hpend3, _⟩
     · -- nothing executed
       have hst := hst hlive2
       obtain ⟨s4, h4, hw4, hWle, hWlt, hWid⟩ := writeCycle_live hb3 (by rw [hwu3]; exact hlv.wuCyc)
